@@ -139,7 +139,17 @@ fn cnf_checks(ctx: &mut Ctx, rng: &mut Rng, cl: &Clauses) {
 }
 
 fn model_case(ctx: &mut Ctx, rng: &mut Rng) {
-    let n = rng.range(1, 70);
+    // up to 300 variables, biased to sizes around the 64- and 128-bit word boundaries
+    let n = match rng.below(6) {
+        0 => rng.range(1, 20),
+        1 => rng.range(60, 70),
+        2 => rng.range(120, 135),
+        3 => rng.range(180, 300),
+        _ => rng.range(1, 140),
+    };
+    if n > 64 {
+        ctx.count("models_over_more_than_64_variables", 1);
+    }
     let mut pm = PartialModel::new(n);
     let mut model: HashMap<usize, bool> = HashMap::new();
     let mut vs = VarSet::new();
